@@ -1,7 +1,28 @@
 /-
   C14 — The event stream explains every run: `retry`* then exactly one terminal event.
 
-  Theorems are about `Mon.C14.ok`, the monitor the driver also evaluates on implementation traces.
+  Theorems are about `Mon.C14.ok`, the monitor the driver also evaluates on implementation traces:
+  for EVERY configuration, EVERY answer stream and every entry point the monitor accepts the model's run
+  (`events_hold`, `events_hold_script`), and its four conjuncts are stated separately
+  (`stream_shape`, `terminal_tags`, `sinks_agree`, `breaker_events_shape`, plus `rejected_silent`).
+
+  Guards of the monitor (each is part of the statement, not an extra assumption):
+  * `hasLoop cfg e` — "a policy with a retry component";
+  * `endsNormally e t r` — "ends normally (value, failure, deferral or abort)": a returned value / outcome;
+    for `call()` an AbortRetryError / RetryExhaustedError made by the library, or the operation's own last
+    exception (raised by the operation and by no other callback), or the breaker's rejection; never a
+    cancellation kind, a nested RetryExhaustedError, or an error raised by a strategy / sleeper / classifier /
+    hook; `execute()` delivers every normal end as an outcome, so a raising `execute()` is never normal;
+  * `!attemptHookFault t` — an attempt hook or `abort_if` itself raised (DESIGN §6.2);
+  * `rejected t` is not a guard: a rejected call is checked to produce NO retry-level event.
+
+  Method (as in C01): a *view* of the world (the monitor's fold state as a function of the log, plus the
+  fields of the retry state the events are built from), exact specs for the leaf procedures in terms of one
+  spec for `ask`, pure transition lemmas for the stream automaton
+  (`Running n` —retry→ `Running (n+1)`, `Running n` —terminal→ `Done`), predicate specs for the structural
+  procedures, induction on the loop fuel, then the policy wrapper.  `Exception` exits carry their own
+  invariant (`MidX`, `CallX`): only `Exception`s are ever caught by the library, so every exceptional
+  postcondition is conditional on `e.isException`.
 -/
 import Redress.Lemmas.Hoare
 import Redress.Monitors
@@ -146,20 +167,6 @@ theorem ask_spec (cfg : Cfg) (v : View) (r : Req) :
 /-- a loud request raised `e` (`hook`: it was an attempt hook or the abort predicate) -/
 def View.raised (v : View) (e : Exn) (hook : Bool) : View :=
   { v with nz := e :: v.nz, esc := hook || v.esc }
-
-/-- requests that move nothing in the view unless they raise -/
-def calm : Req → Bool
-  | .abortIf | .attemptStart _ | .attemptEnd _ | .strategy .. | .stratRecordFailure .. | .stratRecordSuccess _
-  | .sleepHandler .. | .sleeper .. | .budgetConsume | .breakerCancel => true
-  | _ => false
-
-theorem obs_calm (cfg : Cfg) (v : View) (r : Req) (a : Ans) (hq : calm r = true)
-    (ha : raisedExn a = none) : obs cfg v r a = v := by
-  cases r <;> simp_all [calm, obs, step, loud, Mon.isOp, isReject]
-
-theorem obs_calm_raise (cfg : Cfg) (v : View) (r : Req) (e : Exn) (hq : calm r = true) :
-    obs cfg v r (.raise e 0) = v.raised e (Mon.isAttemptHook r) := by
-  cases r <;> simp_all [calm, obs, step, loud, Mon.isOp, isReject, View.raised, raisedExn, Mon.isAttemptHook]
 
 /-- "the view is `v`; an `Exception` exit means a loud request raised it" -/
 abbrev leafPost (cfg : Cfg) (v : View) (hook : Bool) : PostCond α (.except Exn (.arg World .pure)) :=
@@ -915,9 +922,6 @@ theorem Running.failParam {n : Nat} {v : View} {cause : Cause} {exc : Option Exn
     subst hc he
     exact h.failSync (Or.inr sy) ev a sl st h1 h2 h3
 
-theorem Done.stop_eq {v : View} (s : StopReason) (_h : Done cfg tl β .failure v) (hs : v.stop = some s) :
-    v.esc = true ∨ v.stop = some s := Or.inr hs
-
 end trans2
 
 section specs2
@@ -1177,14 +1181,14 @@ theorem deliver_sched {n : Nat} {cause : Cause} {exc : Option Exn} {o : AOutcome
   · -- scheduled, exception
     obtain ⟨hd, hs, hs'⟩ := h4
     refine Or.inr (hd.final_exhausted ?_ rfl ?_)
-    · simp [hs, hs']
+    · simp [hs']
     · simp [view]
   · -- scheduled, for_result
     obtain ⟨hd, hs, hs'⟩ := h4
     rcases h1 with h1 | ⟨_, _, hl⟩
     · exact absurd h1 (by simpa using hesc)
     · refine Or.inr (hd.final_exhausted ?_ rfl ?_)
-      · simp [hs, hs']
+      · simp [hs']
       · simp_all [view]
 
 theorem deliver_raise {n : Nat} {e : Exn} {o : AOutcome} {v : View}
@@ -1855,8 +1859,8 @@ theorem Holds.ok {cfg : Cfg} {e : Entry} {t : Trace} {r : Res} (h : Holds cfg e 
     obtain ⟨h1, h2⟩ := h hg
     unfold verdict
     cases hr : Mon.rejected t
-    · simp [hr, h1 hr]
-    · simp [hr, h2 hr]
+    · simp [h1 hr]
+    · simp [h2 hr]
   · rfl
 
 theorem guard_esc {cfg : Cfg} {e : Entry} {w : World} {r : Res} (hg : guard cfg e w.trace.reverse r = true) :
@@ -1927,4 +1931,655 @@ theorem execute_holds (cfg : Cfg) (w : World) :
   · exact holds_of_not_guard (guard_execute_raised _ _ _ _ rfl)
 
 end assembly
+open Redress.Policy
+
+section bookkeeping
+variable (cfg : Cfg)
+
+/-- logging an exchange with an embedded component (or anything else that leaves `rs` and the timeline alone) -/
+theorem view_log2 (w : World) (r : Req) (a : Ans) (ans : List Ans) (now : Nat) (as : AState) (att oc : Nat)
+    (bud : Budget.St) (br : Breaker.St) (xc : XCtx) :
+    view cfg { w with answers := ans, now := now, trace := (r, a) :: w.trace, as := as, attempts := att,
+                      opCalls := oc, budget := bud, breaker := br, xc := xc } = obs cfg (view cfg w) r a := by
+  simp [view, obs, attemptHookFault_cons, rejected_cons, raisedOf_cons]
+
+/-- `v'` arises from `v` by the policy wrapper's bookkeeping: breaker interactions and their events,
+    a second classifier call; nothing the retry-level stream or the guard's facts depend on is lost -/
+structure Bk (v v' : View) : Prop where
+  ms : v'.mon.ms = v.mon.ms
+  ls : v'.mon.ls = v.mon.ls
+  tags : v'.mon.tagsBad = v.mon.tagsBad
+  brk : brkOf v.mon = quiet → brkOf v'.mon = quiet
+  tl : v'.tl = v.tl
+  stop : v'.stop = v.stop
+  lastClass : v'.lastClass = v.lastClass
+  lastCause : v'.lastCause = v.lastCause
+  lastExc : v'.lastExc = v.lastExc
+  esc : v'.esc = v.esc
+  rej : v'.rej = v.rej
+  nz : ∀ x, x ∈ v.nz → x ∈ v'.nz
+  oz : ∀ x, x ∈ v.oz → x ∈ v'.oz
+
+theorem Bk.refl (v : View) : Bk v v := ⟨rfl, rfl, rfl, id, rfl, rfl, rfl, rfl, rfl, rfl, rfl, fun _ h => h, fun _ h => h⟩
+
+theorem Bk.trans {v1 v2 v3 : View} (h1 : Bk v1 v2) (h2 : Bk v2 v3) : Bk v1 v3 :=
+  ⟨h2.ms.trans h1.ms, h2.ls.trans h1.ls, h2.tags.trans h1.tags, fun h => h2.brk (h1.brk h), h2.tl.trans h1.tl,
+   h2.stop.trans h1.stop, h2.lastClass.trans h1.lastClass, h2.lastCause.trans h1.lastCause,
+   h2.lastExc.trans h1.lastExc, h2.esc.trans h1.esc, h2.rej.trans h1.rej,
+   fun x h => h2.nz x (h1.nz x h), fun x h => h2.oz x (h1.oz x h)⟩
+
+variable {cfg}
+
+theorem Final.bk {tlf : Bool} {r : Res} {v v' : View} (h : Bk v v') (f : Final cfg tlf quiet r v) :
+    Final cfg tlf quiet r v' := by
+  rcases f with f | ⟨h1, h2, h3, t, n, G, hr, hG, ag, ht⟩
+  · exact Or.inl (h.esc ▸ f)
+  · exact Or.inr ⟨h.tags ▸ h1, h.brk h2, h.rej ▸ h3, t, n, G, hr, hG,
+      ⟨h.ms ▸ ag.ms, h.ls ▸ ag.ls, by rw [h.tl]; exact ag.tl⟩, ht⟩
+
+theorem Excused.bk {x : Exn} {v v' : View} (h : Bk v v') (f : Excused x v) : Excused x v' := by
+  rcases f with f | f | f | ⟨f1, f2⟩
+  · exact Or.inl (h.esc ▸ f)
+  · exact Or.inr (Or.inl (h.nz x f))
+  · exact Or.inr (Or.inr (Or.inl f))
+  · exact Or.inr (Or.inr (Or.inr ⟨f1, h.oz x f2⟩))
+
+theorem CallX.bk {x : Exn} {v v' : View} (h : Bk v v') (f : CallX cfg quiet x v) : CallX cfg quiet x v' :=
+  f.elim (fun f => Or.inl (f.bk h)) (fun f => Or.inr (f.bk h))
+
+theorem FinalO.bk {tlf : Bool} {o : Outcome} {v v' : View} (h : Bk v v') (f : FinalO cfg tlf quiet o v) :
+    FinalO cfg tlf quiet o v' := fun tl' => (f tl').bk h
+
+/-- what reporting a breaker event does to the monitor state -/
+def brkEmit (cfg : Cfg) (s : St) (ev : Event) (st : CState) (k : Option EClass) : St :=
+  let tags : Tags := { state := some st, klass := k, operation := cfg.opTag }
+  let s1 := if cfg.metric then onMetric cfg s ev 0 0 tags else s
+  if cfg.log then onLog cfg s1 ev 0 0 tags else s1
+
+/-- the monitor state after a breaker interaction announcing `ev` and the report of `ev` -/
+def brkPair (cfg : Cfg) (s : St) (ev : Option Event) (st : CState) (k : Option EClass) : St :=
+  match ev with
+  | none => s
+  | some e => brkEmit cfg (expect cfg s (e, st, k)) e st k
+
+theorem brkPair_bk (v : View) (ev : Option Event) (st : CState) (k : Option EClass)
+    (hb : ∀ e, ev = some e → isBreakerEvent e = true) :
+    Bk v { v with mon := brkPair cfg v.mon ev st k } := by
+  cases ev with
+  | none => exact Bk.refl v
+  | some e =>
+    have he := hb e rfl
+    constructor <;> try rfl
+    all_goals (cases hm : cfg.metric <;> cases hl : cfg.log <;>
+      simp_all [brkPair, brkEmit, expect, onMetric, onLog, brkOf, brkTagsOk, quiet])
+    all_goals (try (intro h; exact h))
+
+variable (cfg)
+
+theorem emitBreakerEvent_spec (v : View) (ev : Option Event) (st : CState) (k : Option EClass) :
+    ⦃fun w => ⌜view cfg w = v⌝⦄ emitBreakerEvent cfg ev st k
+    ⦃post⟨fun _ w => ⌜view cfg w = { v with mon := match ev with
+                                                   | none => v.mon
+                                                   | some e => brkEmit cfg v.mon e st k }⌝,
+          fun e _ => ⌜e.isException = false⌝⟩⦄ := by
+  have e1 := askMetric_spec cfg
+  have e2 := askLog_spec cfg
+  mvcgen [emitBreakerEvent, swallowException, e1, e2]
+  all_goals (try clear e1 e2)
+  vc_simp [brkEmit]
+
+theorem allow_event (bc : Breaker.Cfg) (s : Breaker.St) (now : Nat) (e : Event)
+    (h : (Breaker.allow bc s now).1.2.2 = some e) : isBreakerEvent e = true := by
+  unfold Breaker.allow at h
+  cases hs : s.state <;> simp only [hs] at h
+  · simp at h
+  · split at h <;> simp at h <;> subst h <;> rfl
+  · split at h <;> simp at h <;> subst h <;> rfl
+
+theorem recordSuccess_event (s : Breaker.St) (e : Event) (h : (Breaker.recordSuccess s).1 = some e) :
+    isBreakerEvent e = true := by
+  unfold Breaker.recordSuccess at h
+  cases hs : s.state <;> simp [hs] at h <;> subst h <;> rfl
+
+theorem recordFailure_event (bc : Breaker.Cfg) (s : Breaker.St) (k : EClass) (now : Nat) (e : Event)
+    (h : (Breaker.recordFailure bc s k now).1 = some e) : isBreakerEvent e = true := by
+  unfold Breaker.recordFailure at h
+  cases hs : s.state <;> simp only [hs] at h
+  · split at h
+    · split at h <;> simp at h
+      subst h; rfl
+    · simp at h
+  · simp at h
+  · simp at h; subst h; rfl
+
+@[simp] theorem obs_breakerSuccess (v : View) (ev : Option Event) (st : CState) :
+    obs cfg v .breakerSuccess (.recorded ev st) =
+      { v with mon := match ev with | some e => expect cfg v.mon (e, st, none) | none => v.mon } := by
+  cases ev <;> simp [obs, step, loud, isReject, Mon.isOp, Mon.isAttemptHook, raisedExn]
+
+@[simp] theorem obs_breakerFailure (v : View) (k : EClass) (ev : Option Event) (st : CState) :
+    obs cfg v (.breakerFailure k) (.recorded ev st) =
+      { v with mon := match ev with | some e => expect cfg v.mon (e, st, some k) | none => v.mon } := by
+  cases ev <;> simp [obs, step, loud, isReject, Mon.isOp, Mon.isAttemptHook, raisedExn]
+
+@[simp] theorem obs_breakerCancel (v : View) (ev : Option Event) (st : CState) :
+    obs cfg v .breakerCancel (.recorded ev st) = v := by
+  simp [obs, step, loud, isReject, Mon.isOp, Mon.isAttemptHook, raisedExn]
+
+@[simp] theorem obs_breakerAllow (v : View) (b : Bool) (ev : Option Event) (st : CState) :
+    obs cfg v .breakerAllow (.admit b st ev) =
+      { v with mon := (match ev with | some e => expect cfg v.mon (e, st, none) | none => v.mon),
+               rej := !b || v.rej } := by
+  cases ev <;> cases b <;> simp [obs, step, loud, isReject, Mon.isOp, Mon.isAttemptHook, raisedExn]
+
+theorem bk_of_pair (v : View) (ev : Option Event) (st : CState) (k : Option EClass) :
+    (∀ e, ev = some e → isBreakerEvent e = true) →
+    Bk v { v with mon := match ev with
+                         | none => (match ev with | some e => expect cfg v.mon (e, st, k) | none => v.mon)
+                         | some e => brkEmit cfg (match ev with
+                                                  | some e => expect cfg v.mon (e, st, k)
+                                                  | none => v.mon) e st k } := by
+  intro hb
+  cases ev with
+  | none => exact Bk.refl v
+  | some e => exact brkPair_bk (cfg := cfg) v (some e) st k hb
+
+abbrev bkPost (v : View) : PostCond α (.except Exn (.arg World .pure)) :=
+  post⟨fun _ w => ⌜Bk v (view cfg w)⌝, fun e _ => ⌜e.isException = false⌝⟩
+
+theorem recordSuccess_spec (v : View) :
+    ⦃fun w => ⌜view cfg w = v⌝⦄ Policy.recordSuccess cfg ⦃bkPost cfg v⦄ := by
+  have e1 := emitBreakerEvent_spec cfg
+  mvcgen [Policy.recordSuccess, e1]
+  all_goals (try clear e1)
+  all_goals (try subst_vars)
+  all_goals (try simp_all only [view_log2, obs_breakerSuccess])
+  · exact Bk.refl _
+  · exact fun _ => bk_of_pair cfg _ _ _ _ (fun e h => recordSuccess_event _ e h)
+
+theorem recordFailure_spec' (v : View) (k : EClass) :
+    ⦃fun w => ⌜view cfg w = v⌝⦄ Policy.recordFailure cfg k ⦃bkPost cfg v⦄ := by
+  have e1 := emitBreakerEvent_spec cfg
+  mvcgen [Policy.recordFailure, e1]
+  all_goals (try clear e1)
+  all_goals (try subst_vars)
+  all_goals (try simp_all only [view_log2, obs_breakerFailure])
+  · exact Bk.refl _
+  · exact fun _ => bk_of_pair cfg _ _ _ _ (fun e h => recordFailure_event _ _ _ _ e h)
+
+theorem recordCancel_spec (v : View) :
+    ⦃fun w => ⌜view cfg w = v⌝⦄ Policy.recordCancel cfg
+    ⦃post⟨fun _ w => ⌜view cfg w = v⌝, fun _ _ => ⌜False⌝⟩⦄ := by
+  mvcgen [Policy.recordCancel]
+  all_goals (try subst_vars)
+  all_goals (try simp_all only [view_log2, obs_breakerCancel])
+
+theorem ensureSettled_spec (v : View) :
+    ⦃fun w => ⌜view cfg w = v⌝⦄ ensureSettled cfg
+    ⦃post⟨fun _ w => ⌜view cfg w = v⌝, fun _ _ => ⌜False⌝⟩⦄ := by
+  have e1 := recordCancel_spec cfg
+  mvcgen [ensureSettled, e1]
+
+theorem initCtx_spec (v : View) :
+    ⦃fun w => ⌜view cfg w = v⌝⦄ initCtx
+    ⦃post⟨fun _ w => ⌜view cfg w = v⌝, fun _ _ => ⌜False⌝⟩⦄ := by
+  mvcgen [initCtx]
+  all_goals (subst_vars; rfl)
+
+theorem breakerAllow_spec (v : View) (bc : Breaker.Cfg) :
+    ⦃fun w => ⌜view cfg w = v⌝⦄ breakerAllow bc
+    ⦃post⟨fun d w => ⌜view cfg w = obs cfg v .breakerAllow (.admit d.1 d.2.1 d.2.2)
+                      ∧ ∀ e, d.2.2 = some e → isBreakerEvent e = true⌝, fun _ _ => ⌜False⌝⟩⦄ := by
+  mvcgen [breakerAllow]
+  all_goals (try subst_vars)
+  all_goals (try simp only [view_log2])
+  all_goals (exact ⟨trivial, fun e h => allow_event _ _ _ e h⟩)
+
+/-- the breaker rejected the call: nothing at retry level happened, and the rejection was reported -/
+structure RejectedV (v : View) : Prop where
+  rej : v.rej = true
+  ms : v.mon.ms = []
+  ls : v.mon.ls = []
+  brk : brkOf v.mon = quiet
+  tl : v.tl = []
+
+/-- nothing at retry level has happened yet (before / without admission) -/
+structure Idle (v : View) : Prop where
+  fresh : Fresh quiet v
+  tl : v.tl = []
+
+theorem Idle.bk {v v' : View} (h : Bk v v') (i : Idle v) (hk : v'.mon.klass = none ∧ v'.mon.cause = none) : Idle v' :=
+  ⟨⟨h.ms ▸ i.fresh.ms, h.ls ▸ i.fresh.ls, h.tags ▸ i.fresh.tags, h.brk i.fresh.brk, hk.1, hk.2, h.rej ▸ i.fresh.rej⟩,
+   h.tl ▸ i.tl⟩
+
+theorem pair_klass (s : St) (ev : Option Event) (st : CState) (k : Option EClass) :
+    (match ev with
+     | none => (match ev with | some e => expect cfg s (e, st, k) | none => s)
+     | some e => brkEmit cfg (match ev with
+                              | some e => expect cfg s (e, st, k)
+                              | none => s) e st k).klass = s.klass ∧
+    (match ev with
+     | none => (match ev with | some e => expect cfg s (e, st, k) | none => s)
+     | some e => brkEmit cfg (match ev with
+                              | some e => expect cfg s (e, st, k)
+                              | none => s) e st k).cause = s.cause := by
+  cases ev with
+  | none => exact ⟨rfl, rfl⟩
+  | some e =>
+    cases hm : cfg.metric <;> cases hl : cfg.log <;> cases hb : isBreakerEvent e <;>
+      simp [brkEmit, expect, onMetric, onLog, hm, hl, hb]
+
+theorem pair_idle (v : View) (hi : Idle v) (ev : Option Event) (st : CState) (k : Option EClass) (r : Bool) :
+    (∀ e, ev = some e → isBreakerEvent e = true) →
+    (r = v.rej → Idle { v with mon := match ev with
+                         | none => (match ev with | some e => expect cfg v.mon (e, st, k) | none => v.mon)
+                         | some e => brkEmit cfg (match ev with
+                                                  | some e => expect cfg v.mon (e, st, k)
+                                                  | none => v.mon) e st k, rej := r }) ∧
+    (r = true → RejectedV { v with mon := match ev with
+                         | none => (match ev with | some e => expect cfg v.mon (e, st, k) | none => v.mon)
+                         | some e => brkEmit cfg (match ev with
+                                                  | some e => expect cfg v.mon (e, st, k)
+                                                  | none => v.mon) e st k, rej := r }) := by
+  intro hb
+  have hbk := bk_of_pair cfg v ev st k hb
+  have hk := pair_klass cfg v.mon ev st k
+  constructor
+  · intro hr
+    subst hr
+    exact hi.bk hbk ⟨hk.1.trans hi.fresh.klass, hk.2.trans hi.fresh.cause⟩
+  · intro hr
+    subst hr
+    exact ⟨rfl, hbk.ms.trans hi.fresh.ms, hbk.ls.trans hi.fresh.ls, hbk.brk hi.fresh.brk, hi.tl⟩
+
+theorem checkBreaker_spec (v : View) (hi : Idle v) :
+    ⦃fun w => ⌜view cfg w = v⌝⦄ checkBreaker cfg
+    ⦃post⟨fun _ w => ⌜Idle (view cfg w)⌝,
+          fun x w => ⌜x.isException = true → (∃ st, x = .libCircuitOpen st) ∧ RejectedV (view cfg w)⌝⟩⦄ := by
+  have e1 := breakerAllow_spec cfg
+  have e2 := emitBreakerEvent_spec cfg
+  mvcgen [checkBreaker, e1, e2]
+  all_goals (try clear e1 e2)
+  all_goals (try subst_vars)
+  all_goals (try simp_all only [obs_breakerAllow])
+  all_goals (first
+    | exact hi
+    | exact (pair_idle cfg _ hi _ _ _ _ (‹_ ∧ ∀ (e : Event), _›).2).1 (by simp)
+    | exact fun _ => ⟨⟨_, rfl⟩, (pair_idle cfg _ hi _ _ _ _ (‹_ ∧ ∀ (e : Event), _›).2).2 (by simp)⟩
+    | (simp_all; done))
+
+variable {cfg}
+
+@[simp] theorem Excused_classified {x : Exn} {v : View} {k : EClass} {c : Cause} :
+    Excused x (v.classified k c) ↔ Excused x v := by
+  simp [Excused, View.classified]
+
+@[simp] theorem CallX_classified {x : Exn} {v : View} {k : EClass} {c : Cause} :
+    CallX cfg quiet x (v.classified k c) ↔ CallX cfg quiet x v := by
+  simp [CallX]
+
+theorem bk_classified (v : View) (k : EClass) (c : Cause) : Bk v (v.classified k c) := by
+  constructor <;> simp [View.classified, brkOf]
+
+theorem bk_raised (v : View) (e : Exn) : Bk v (v.raised e false) := by
+  constructor <;> simp [View.raised, brkOf]
+  intro x hx; exact Or.inr hx
+
+variable (cfg)
+
+/-- `_handle_exception_call` for a policy with a retry component: classify once more, record the failure -/
+theorem handleExceptionCall_spec (hret : cfg.hasRetry = true) (v : View) (e : Exn) (onEnd : Bool) :
+    ⦃fun w => ⌜view cfg w = v⌝⦄ handleExceptionCall cfg e onEnd
+    ⦃post⟨fun _ w => ⌜Bk v (view cfg w)⌝,
+          fun x w => ⌜x.isException = true → Bk v (view cfg w) ∧ x ∈ (view cfg w).nz⌝⟩⦄ := by
+  have e1 := callClassifier_spec cfg
+  have e2 := recordFailure_spec' cfg
+  unfold handleExceptionCall classifyForBreaker
+  simp only [hret, Bool.not_true, Bool.false_and, Bool.false_eq_true, if_false, if_true]
+  mvcgen [e1, e2]
+  all_goals (try clear e1 e2)
+  vc_simp []
+  all_goals (first
+    | exact Bk.refl _
+    | exact (bk_classified _ _ _).trans (by assumption)
+    | exact ⟨bk_raised _ _, by simp [View.raised]⟩
+    | skip)
+
+theorem handleAbortCall_spec (hret : cfg.hasRetry = true) (v : View) (e : Exn) :
+    ⦃fun w => ⌜view cfg w = v⌝⦄ handleAbortCall cfg e
+    ⦃post⟨fun _ w => ⌜view cfg w = v⌝, fun _ _ => ⌜False⌝⟩⦄ := by
+  have e1 := recordCancel_spec cfg
+  unfold handleAbortCall
+  simp only [hret, Bool.not_true, Bool.false_eq_true, if_false]
+  mvcgen [e1]
+
+theorem handleExhaustedCall_spec (v : View) (e : Exn) :
+    ⦃fun w => ⌜view cfg w = v⌝⦄ handleExhaustedCall cfg e ⦃bkPost cfg v⦄ := by
+  have e2 := recordFailure_spec' cfg
+  mvcgen [handleExhaustedCall, e2]
+
+theorem callLadder_spec (hret : cfg.hasRetry = true) (e : Exn) :
+    ⦃fun w => ⌜e.isException = true → CallX cfg quiet e (view cfg w)⌝⦄ callLadder cfg e
+    ⦃post⟨fun _ _ => ⌜False⌝, fun x w => ⌜x.isException = true → CallX cfg quiet x (view cfg w)⌝⟩⦄ := by
+  intro w hp
+  have e1 := recordCancel_spec cfg (view cfg w)
+  have e2 := handleAbortCall_spec cfg hret (view cfg w) e
+  have e3 := handleExhaustedCall_spec cfg (view cfg w) e
+  have e4 := handleExceptionCall_spec cfg hret (view cfg w) e true
+  have : ⦃fun w' => ⌜view cfg w' = view cfg w⌝⦄ callLadder cfg e
+      ⦃post⟨fun _ _ => ⌜False⌝, fun x w' => ⌜x.isException = true → CallX cfg quiet x (view cfg w')⌝⟩⦄ := by
+    mvcgen [callLadder, e1, e2, e3, e4]
+    all_goals (try clear e1 e2 e3 e4)
+    vc_simp []
+    all_goals (first
+      | exact (hp (by assumption)).bk (by assumption)
+      | exact CallX.bk (by assumption) hp
+      | exact Or.inl (Or.inr (Or.inl (‹Bk _ _ ∧ _›).2))
+      | (have := isKiSe_not_exception (e := e) (by assumption); simp_all; done)
+      | skip)
+  exact this w rfl
+
+/-- how `Policy.call` may end with an `Exception` -/
+def PCallX (x : Exn) (v : View) : Prop :=
+  CallX cfg quiet x v ∨ ((∃ st, x = .libCircuitOpen st) ∧ RejectedV v)
+
+abbrev pcallPost : PostCond Nat (.except Exn (.arg World .pure)) :=
+  post⟨fun x w => ⌜Final cfg false quiet (.ret x) (view cfg w)⌝,
+       fun x w => ⌜x.isException = true → PCallX cfg x (view cfg w)⌝⟩
+
+theorem callAdmitted_spec (hret : cfg.hasRetry = true) (v : View) (hi : Idle v) :
+    ⦃fun w => ⌜view cfg w = v⌝⦄ callAdmitted cfg ⦃pcallPost cfg⦄ := by
+  have e1 := checkBreaker_spec cfg v hi
+  have e2 := fun v (hi : Idle v) => runCall_spec cfg quiet v hi.fresh
+  have e3 := recordSuccess_spec cfg
+  have e4 := callLadder_spec cfg hret
+  unfold callAdmitted
+  simp only [hret, if_true]
+  mvcgen [e1, e2, e3, e4]
+  all_goals (try clear e1 e2 e3 e4)
+  vc_simp [PCallX]
+  all_goals (first
+    | exact Final.bk (by assumption) (by assumption)
+    | skip)
+
+theorem policyCall_spec (hret : cfg.hasRetry = true) (v : View) (hi : Idle v) :
+    ⦃fun w => ⌜view cfg w = v⌝⦄ Policy.call cfg ⦃pcallPost cfg⦄ := by
+  have e1 := initCtx_spec cfg
+  have e2 := callAdmitted_spec cfg hret v hi
+  have e3 := ensureSettled_spec cfg
+  mvcgen [Policy.call, withFinally, e1, e2, e3]
+  all_goals (try clear e1 e2 e3)
+  vc_simp []
+
+/-- how `Policy.execute` ends with an outcome -/
+def PExecO (o : Outcome) (v : View) : Prop := FinalO cfg cfg.timeline quiet o v ∨ RejectedV v
+
+abbrev pexecPost : PostCond Outcome (.except Exn (.arg World .pure)) :=
+  post⟨fun o w => ⌜PExecO cfg o (view cfg w)⌝, fun _ _ => ⌜True⌝⟩
+
+theorem executeLadder_spec (hret : cfg.hasRetry = true) (e : Exn) :
+    ⦃fun _ => ⌜True⌝⦄ executeLadder cfg e ⦃post⟨fun _ _ => ⌜False⌝, fun _ _ => ⌜True⌝⟩⦄ := by
+  intro w _
+  have e1 := recordCancel_spec cfg (view cfg w)
+  have e3 := handleExhaustedCall_spec cfg (view cfg w) e
+  have e4 := handleExceptionCall_spec cfg hret (view cfg w) e false
+  have : ⦃fun w' => ⌜view cfg w' = view cfg w⌝⦄ executeLadder cfg e
+      ⦃post⟨fun _ _ => ⌜False⌝, fun _ _ => ⌜True⌝⟩⦄ := by
+    mvcgen [executeLadder, e1, e3, e4]
+  exact this w rfl
+
+theorem executeWithRetry_spec (hret : cfg.hasRetry = true) (v : View) (hi : Idle v) :
+    ⦃fun w => ⌜view cfg w = v⌝⦄ executeWithRetry cfg ⦃pexecPost cfg⦄ := by
+  have e1 := runExecute_spec cfg quiet v hi.fresh
+  have e2 := executeLadder_spec cfg hret
+  have e3 := recordSuccess_spec cfg
+  have e4 := recordCancel_spec cfg
+  have e5 := recordFailure_spec' cfg
+  mvcgen [executeWithRetry, e1, e2, e3, e4, e5]
+  all_goals (try clear e1 e2 e3 e4 e5)
+  vc_simp [PExecO]
+  all_goals (first
+    | exact Or.inl (FinalO.bk (by assumption) (by assumption))
+    | skip)
+
+theorem policyOutcome_spec (v : View) (ok : Bool) (value : Option Nat) (stop : Option StopReason) (attempts : Nat)
+    (lc : Option EClass) (le : Option String) (cause : Option Cause) :
+    ⦃fun w => ⌜view cfg w = v⌝⦄ policyOutcome ok value stop attempts lc le cause
+    ⦃post⟨fun _ w => ⌜view cfg w = v⌝, fun _ _ => ⌜False⌝⟩⦄ := by
+  mvcgen [policyOutcome, xElapsed]
+
+theorem executeAdmitted2_spec (hret : cfg.hasRetry = true) (v : View) (hi : Idle v) :
+    ⦃fun w => ⌜view cfg w = v⌝⦄ executeAdmitted2 cfg ⦃pexecPost cfg⦄ := by
+  have e1 := executeWithRetry_spec cfg hret v hi
+  unfold executeAdmitted2
+  simp only [hret, if_true]
+  mvcgen [e1]
+  all_goals (try clear e1)
+  vc_simp []
+
+theorem executeAdmitted_spec (hret : cfg.hasRetry = true) (v : View) (hi : Idle v) :
+    ⦃fun w => ⌜view cfg w = v⌝⦄ executeAdmitted cfg ⦃pexecPost cfg⦄ := by
+  have e1 := breakerAllow_spec cfg
+  have e2 := emitBreakerEvent_spec cfg
+  have e3 := fun v hi => executeAdmitted2_spec cfg hret v hi
+  have e4 := policyOutcome_spec cfg
+  mvcgen [executeAdmitted, e1, e2, e3, e4]
+  all_goals (try clear e1 e2 e3 e4)
+  all_goals (try subst_vars)
+  all_goals (try simp_all only [obs_breakerAllow])
+  all_goals (first
+    | exact hi
+    | exact (pair_idle cfg _ hi _ _ _ _ (‹_ ∧ ∀ (e : Event), _›).2).1 (by simp)
+    | exact Or.inr ((pair_idle cfg _ hi _ _ _ _ (‹_ ∧ ∀ (e : Event), _›).2).2 (by simp))
+    | exact fun _ _ => (pair_idle cfg _ hi _ _ _ _ (‹_ ∧ ∀ (e : Event), _›).2).1 (by simp)
+    | exact fun _ => Or.inr ((pair_idle cfg _ hi _ _ _ _ (‹_ ∧ ∀ (e : Event), _›).2).2 (by simp))
+    | (simp_all; done)
+    | skip)
+
+theorem policyExecute_spec (hret : cfg.hasRetry = true) (v : View) (hi : Idle v) :
+    ⦃fun w => ⌜view cfg w = v⌝⦄ Policy.execute cfg ⦃pexecPost cfg⦄ := by
+  have e1 := initCtx_spec cfg
+  have e2 := executeAdmitted_spec cfg hret v hi
+  have e3 := ensureSettled_spec cfg
+  mvcgen [Policy.execute, withFinally, e1, e2, e3]
+  all_goals (try clear e1 e2 e3)
+  vc_simp []
+
+end bookkeeping
+
+section theorems
+
+theorem idle_start (cfg : Cfg) (w : World) : Idle (view cfg (startWorld w)) := ⟨fresh_start cfg w, rfl⟩
+
+/-- a rejected call: nothing at retry level, and the rejection reported -/
+theorem holds_of_rejected {cfg : Cfg} {e : Entry} {r : Res} {w : World} (h : RejectedV (view cfg w))
+    (htl : ∀ tl, timelineOf cfg e r = some tl → tl = []) :
+    Holds cfg e w.trace.reverse r := by
+  intro _
+  have hrej : Mon.rejected w.trace.reverse = true := by rw [rejected_reverse]; exact h.rej
+  rw [run_reverse]
+  refine ⟨fun hh => absurd (hrej.symm.trans hh) (by simp), fun _ => ⟨?_, ?_⟩⟩
+  · have hms := h.ms
+    have hls := h.ls
+    simp only [view] at hms hls
+    unfold noRetryEvents
+    cases ht : timelineOf cfg e r with
+    | none => simp [hms, hls]
+    | some tl => simp [hms, hls, htl tl ht]
+  · have := h.brk
+    simp only [brkOf, quiet, Prod.mk.injEq, view] at this
+    simp [breakerEventsShape, this.1, this.2.1, this.2.2]
+
+theorem guard_no_loop (cfg : Cfg) (e : Entry) (t : Trace) (r : Res) (h : hasLoop cfg e = false) :
+    Mon.C14.guard cfg e t r = false := by
+  simp [Mon.C14.guard, h]
+
+theorem pcall_holds (cfg : Cfg) (w : World) :
+    Holds cfg .pcall (runEntry cfg .pcall w).2.trace.reverse (runEntry cfg .pcall w).1 := by
+  cases hret : cfg.hasRetry with
+  | false => exact holds_of_not_guard (guard_no_loop _ _ _ _ (by simp [hasLoop, hret, Entry.isPolicy]))
+  | true =>
+    have := adequacy (policyCall_spec cfg hret _ (idle_start cfg w)) (startWorld w) rfl
+    simp only [runEntry, startWorld] at this ⊢
+    split at this <;> rename_i heq <;> simp only [heq, toRes]
+    · exact holds_of_final (tlf := false) (fun _ => ⟨this, tlLink_call _ _ _ _ rfl⟩)
+    · intro hg
+      obtain ⟨hn, hh, _⟩ := guard_normal hg
+      obtain ⟨hx, hne, _⟩ := guard_raised cfg _ _ _ hn hh
+      rcases this hx with hc | ⟨_, hr⟩
+      · exact holds_of_final (tlf := false) (fun _ => ⟨hc.resolve_left hne, tlLink_call _ _ _ _ rfl⟩) hg
+      · exact holds_of_rejected hr (by simp [timelineOf]) hg
+
+theorem pexecute_holds (cfg : Cfg) (w : World) :
+    Holds cfg .pexecute (runEntry cfg .pexecute w).2.trace.reverse (runEntry cfg .pexecute w).1 := by
+  cases hret : cfg.hasRetry with
+  | false => exact holds_of_not_guard (guard_no_loop _ _ _ _ (by simp [hasLoop, hret, Entry.isPolicy]))
+  | true =>
+    have := adequacy (policyExecute_spec cfg hret _ (idle_start cfg w)) (startWorld w) rfl
+    simp only [runEntry, startWorld] at this ⊢
+    split at this <;> rename_i heq <;> simp only [heq, toResO, hret, Bool.and_true]
+    · rcases this with hf | hr
+      · exact holds_of_final (tlf := cfg.timeline) (fun _ => ⟨hf _, tlLink_execute _ _ _ _ _ rfl rfl⟩)
+      · refine holds_of_rejected hr ?_
+        intro tl ht
+        have htl := hr.tl
+        simp only [view, List.map_eq_nil_iff] at htl
+        simp only [timelineOf] at ht
+        split at ht
+        · cases ht; simp [htl]
+        · cases ht
+    · exact holds_of_not_guard (guard_execute_raised _ _ _ _ rfl)
+
+end theorems
+
+/-! ### the theorems -/
+section main
+
+/-- Every conjunct of C14 at once, for one call from any world. -/
+theorem holds (cfg : Cfg) (e : Entry) (w : World) :
+    Holds cfg e (runEntry cfg e w).2.trace.reverse (runEntry cfg e w).1 := by
+  cases e with
+  | call => exact call_holds cfg w
+  | execute => exact execute_holds cfg w
+  | pcall => exact pcall_holds cfg w
+  | pexecute => exact pexecute_holds cfg w
+
+/--
+**C14, conjunct 1 (`stream_shape`).**  For every configuration, entry point and world: if the run ends
+normally (the monitor's guard) and was not rejected by the breaker, then the REQUESTS to the metric hook,
+those to the log hook and the captured timeline are each `retry(1,·) … retry(n,·)` followed by exactly
+one terminal event.
+-/
+theorem stream_shape (cfg : Cfg) (e : Entry) (w : World)
+    (hg : Mon.C14.guard cfg e (runEntry cfg e w).2.trace.reverse (runEntry cfg e w).1 = true)
+    (hr : Mon.rejected (runEntry cfg e w).2.trace.reverse = false) :
+    streamShape cfg e (run cfg (runEntry cfg e w).2.trace.reverse) (runEntry cfg e w).1 = true :=
+  ((holds cfg e w hg).1 hr).1
+
+/--
+**C14, conjunct 2 (`terminal_tags`).**  Every retry-level event's tags describe the failure in progress
+(class and cause as the classifier announced them, `err` the type name of what the operation raised,
+`operation`; `success` carries nothing, `aborted` only its reason), and the terminal event agrees with the
+delivered result (`success` ⇔ success; `stop_reason` = the delivered stop reason; class / cause / err of the
+final failure).
+-/
+theorem terminal_tags (cfg : Cfg) (e : Entry) (w : World)
+    (hg : Mon.C14.guard cfg e (runEntry cfg e w).2.trace.reverse (runEntry cfg e w).1 = true)
+    (hr : Mon.rejected (runEntry cfg e w).2.trace.reverse = false) :
+    terminalTags cfg e (run cfg (runEntry cfg e w).2.trace.reverse) (runEntry cfg e w).1 = true :=
+  ((holds cfg e w hg).1 hr).2.1
+
+/--
+**C14, conjunct 3 (`sinks_agree`).**  The log hook is asked exactly what the metric hook is asked, and the
+captured timeline is the projection of that stream (also when a hook raises an `Exception`: the composite
+hook records before it calls `on_metric`).
+-/
+theorem sinks_agree (cfg : Cfg) (e : Entry) (w : World)
+    (hg : Mon.C14.guard cfg e (runEntry cfg e w).2.trace.reverse (runEntry cfg e w).1 = true)
+    (hr : Mon.rejected (runEntry cfg e w).2.trace.reverse = false) :
+    sinksAgree cfg e (run cfg (runEntry cfg e w).2.trace.reverse) (runEntry cfg e w).1 = true :=
+  ((holds cfg e w hg).1 hr).2.2.1
+
+/--
+**C14, conjunct 4 (`breaker_events_shape`).**  Every transition / rejection the breaker announced is
+reported to each configured hook, once, with attempt 0, sleep 0, the breaker's state (and the failure class
+for `record_failure`) and `operation`; no other breaker event is reported.  Also for rejected calls.
+-/
+theorem breaker_events_shape (cfg : Cfg) (e : Entry) (w : World)
+    (hg : Mon.C14.guard cfg e (runEntry cfg e w).2.trace.reverse (runEntry cfg e w).1 = true) :
+    breakerEventsShape (run cfg (runEntry cfg e w).2.trace.reverse) = true := by
+  cases hr : Mon.rejected (runEntry cfg e w).2.trace.reverse
+  · exact ((holds cfg e w hg).1 hr).2.2.2
+  · exact ((holds cfg e w hg).2 hr).2
+
+/-- A call the breaker rejected produces no retry-level event at all, in any sink. -/
+theorem rejected_silent (cfg : Cfg) (e : Entry) (w : World)
+    (hg : Mon.C14.guard cfg e (runEntry cfg e w).2.trace.reverse (runEntry cfg e w).1 = true)
+    (hr : Mon.rejected (runEntry cfg e w).2.trace.reverse = true) :
+    noRetryEvents cfg e (run cfg (runEntry cfg e w).2.trace.reverse) (runEntry cfg e w).1 = true :=
+  ((holds cfg e w hg).2 hr).1
+
+/--
+**C14.**  For every configuration, every entry point (`Retry`/`Policy` × `call`/`execute`) and every world —
+every answer stream, clock value and state of a shared budget or breaker — the run satisfies the
+event-stream monitor `Mon.C14.ok` (the same function the driver evaluates on the implementation's log).
+-/
+theorem events_hold (cfg : Cfg) (e : Entry) (w : World) :
+    Mon.C14.ok cfg e (runEntry cfg e w).2.trace.reverse (runEntry cfg e w).1 = true :=
+  (holds cfg e w).ok
+
+/-- …and therefore of every call in every script of calls and clock advances on ONE policy object. -/
+theorem events_hold_script (cfg : Cfg) : ∀ (steps : List Step) (w : World),
+    ∀ l ∈ (runScript cfg steps w).1, Mon.C14.ok cfg l.entry l.trace l.res = true := by
+  intro steps
+  induction steps with
+  | nil => intro w l hl; simp [runScript] at hl
+  | cons st rest ih =>
+    intro w l hl
+    cases st with
+    | advance d => exact ih _ l (by simpa [runScript] using hl)
+    | run e =>
+      simp only [runScript, List.mem_cons] at hl
+      rcases hl with rfl | hl
+      · exact events_hold cfg e w
+      · exact ih _ l hl
+
+/-! Non-vacuity of the guard (tests on concrete LOGS, not runs of the model): a call that succeeds at the
+    second attempt, and a call that re-raises the operation's exception; the guard holds and the monitor
+    accepts. -/
+example :
+    let t : Trace :=
+      [(.op 1, .raise (.ordinary 1 .transient) 0), (.classify "o1", .klass ⟨.transient, none⟩ 0),
+       (.metric .retry 1 3 { klass := some .transient, err := some "XTRANSIENT", cause := some .exception }, .unit 0),
+       (.op 2, .value 7 0), (.metric .success 2 0 {}, .unit 0)]
+    Mon.C14.guard { metric := true } .call t (.ret 7) = true ∧ Mon.C14.ok { metric := true } .call t (.ret 7) = true := by
+  decide
+
+example :
+    let x : Exn := .ordinary 1 .permanent
+    let t : Trace :=
+      [(.op 1, .raise x 0), (.classify "o1", .klass ⟨.permanent, none⟩ 0),
+       (.metric .permanentFail 1 0 (Tags.mk (some .permanent) (some "XPERMANENT") (some .nonRetryableClass)
+          (some .exception) none none), .unit 0)]
+    Mon.C14.guard { metric := true } .call t (.raised x) = true ∧ Mon.C14.ok { metric := true } .call t (.raised x) = true := by
+  decide
+
+/-- a rejected call (hypotheses of `rejected_silent` / `breaker_events_shape`) -/
+example :
+    let t : Trace :=
+      [(.breakerAllow, .admit false .opened (some .circuitRejected)),
+       (.metric .circuitRejected 0 0 { state := some .opened }, .unit 0)]
+    Mon.C14.guard { metric := true } .pcall t (.raised (.libCircuitOpen .opened)) = true
+    ∧ Mon.rejected t = true
+    ∧ Mon.C14.ok { metric := true } .pcall t (.raised (.libCircuitOpen .opened)) = true := by
+  decide
+
+/-- …and teeth: a second terminal event is rejected. -/
+example :
+    let t : Trace :=
+      [(.op 1, .value 7 0), (.metric .success 1 0 {}, .unit 0), (.metric .success 1 0 {}, .unit 0)]
+    Mon.C14.ok { metric := true } .call t (.ret 7) = false := by
+  decide
+
+end main
 end Redress.Props.C14
